@@ -35,9 +35,11 @@ int mock_new_calls, mock_destroy_calls;
 reproc_t *reproc_new(void) { mock_new_calls++; return calloc(1, sizeof(reproc_t)); }
 reproc_t *reproc_destroy(reproc_t *p) { if (p) mock_destroy_calls++; free(p); return NULL; }
 
+/* like the C API: a call without a handle is a misuse, answered with the invalid-argument error and nothing else */
+#define NOHANDLE(p) do { if (!(p)) return REPROC_EINVAL; } while (0)
 int reproc_start(reproc_t *p, const char *const *argv, reproc_options options)
 {
-  (void) p;
+  NOHANDLE(p);
   strcpy(mock_last, "start"); mock_calls++;
   mock_options = options;
   mock_argv = argv; mock_argv_null = argv == NULL; mock_argc = 0;
@@ -46,7 +48,7 @@ int reproc_start(reproc_t *p, const char *const *argv, reproc_options options)
   if (options.env.extra) for (; options.env.extra[mock_envc] && mock_envc < 32; mock_envc++) strncpy(mock_env_copy[mock_envc], options.env.extra[mock_envc], 127);
   return mock_ret;
 }
-int reproc_pid(reproc_t *p) { (void) p; strcpy(mock_last, "pid"); mock_calls++; return mock_ret; }
+int reproc_pid(reproc_t *p) { NOHANDLE(p); strcpy(mock_last, "pid"); mock_calls++; return mock_ret; }
 int reproc_poll(reproc_event_source *s, size_t n, int timeout)
 {
   strcpy(mock_last, "poll"); mock_calls++;
@@ -55,13 +57,13 @@ int reproc_poll(reproc_event_source *s, size_t n, int timeout)
   return mock_ret;
 }
 int reproc_read(reproc_t *p, REPROC_STREAM stream, uint8_t *buffer, size_t size)
-{ (void) p; strcpy(mock_last, "read"); mock_calls++; mock_int_arg = (int) stream; mock_ptr_arg = buffer; mock_size_arg = size; return mock_ret; }
+{ NOHANDLE(p); strcpy(mock_last, "read"); mock_calls++; mock_int_arg = (int) stream; mock_ptr_arg = buffer; mock_size_arg = size; return mock_ret; }
 int reproc_write(reproc_t *p, const uint8_t *buffer, size_t size)
-{ (void) p; strcpy(mock_last, "write"); mock_calls++; mock_ptr_arg = buffer; mock_size_arg = size; return mock_ret; }
-int reproc_close(reproc_t *p, REPROC_STREAM stream) { (void) p; strcpy(mock_last, "close"); mock_calls++; mock_int_arg = (int) stream; return mock_ret; }
+{ NOHANDLE(p); strcpy(mock_last, "write"); mock_calls++; mock_ptr_arg = buffer; mock_size_arg = size; return mock_ret; }
+int reproc_close(reproc_t *p, REPROC_STREAM stream) { NOHANDLE(p); strcpy(mock_last, "close"); mock_calls++; mock_int_arg = (int) stream; return mock_ret; }
 /* (a wrapper that retried would loop for ever on a constant answer: after a few calls the mock gives in; the call count tells) */
-int reproc_wait(reproc_t *p, int timeout) { (void) p; strcpy(mock_last, "wait"); mock_calls++; mock_int_arg = timeout; return mock_calls > 4 ? 0 : mock_ret; }
-int reproc_terminate(reproc_t *p) { (void) p; strcpy(mock_last, "terminate"); mock_calls++; return mock_ret; }
-int reproc_kill(reproc_t *p) { (void) p; strcpy(mock_last, "kill"); mock_calls++; return mock_ret; }
-int reproc_stop(reproc_t *p, reproc_stop_actions stop) { (void) p; strcpy(mock_last, "stop"); mock_calls++; mock_stop = stop; return mock_ret; }
+int reproc_wait(reproc_t *p, int timeout) { NOHANDLE(p); strcpy(mock_last, "wait"); mock_calls++; mock_int_arg = timeout; return mock_calls > 4 ? 0 : mock_ret; }
+int reproc_terminate(reproc_t *p) { NOHANDLE(p); strcpy(mock_last, "terminate"); mock_calls++; return mock_ret; }
+int reproc_kill(reproc_t *p) { NOHANDLE(p); strcpy(mock_last, "kill"); mock_calls++; return mock_ret; }
+int reproc_stop(reproc_t *p, reproc_stop_actions stop) { NOHANDLE(p); strcpy(mock_last, "stop"); mock_calls++; mock_stop = stop; return mock_ret; }
 const char *reproc_strerror(int e) { (void) e; return "mock"; }
